@@ -470,7 +470,13 @@ static bool doRead(Interp& I, const Step& s)
         for (size_t i = 0; i < I.ioTables.size(); i++) {
             dd_edge* e = new dd_edge(W.F[size_t(f)]);
             rd->readRootEdge(*e);
-            if (!I.produce(dst0 + int(i), f, e, I.ioTables[i], "readRootEdge")) { delete rd; return false; }
+            Table want = I.ioTables[i];
+            if (W.fs[size_t(f)].range == 'R') {
+                // "to the printed precision": reals are written with 6-10 significant digits per
+                // terminal / edge value, and EV* values are products of several printed edge values
+                for (auto& v : want) if (v.t == VR) v.s = 20.0 * std::fabs(v.d) + 1.0;
+            }
+            if (!I.produce(dst0 + int(i), f, e, want, "readRootEdge")) { delete rd; return false; }
             if (f == I.ioForest) {
                 const int orig = I.ioSlots[i];
                 if (I.liveSlot(orig) && W.slots[size_t(orig)].f == f) {
